@@ -217,13 +217,33 @@ def setup_input_rules(ctx, prog, rule="C02.S4"):
         if s.mon.get("failed"):
             ctx.ob(rule + "f", "setup_input [%s fails]" % s.mon["failed"].split("@")[0], "a failing (or would-block) write, or failing to set "
                    "the mode, makes start-up input fail with a negative error (start then undoes everything)", all_neg(rv), {"returns": show(rv)[:40]}, nontrivial=True)
-    # the write cursor: pointer data + written, length size - written, written advanced by the result only
+    # the write cursor: pointer <data> + W, length <size> - W for one variable W, advanced only by the write's result
     calls = [n for n in F.calls("pipe_write")]
-    ok = len(calls) == 1 and expr_str(strip(calls[0]["c"][2])) == "data + written" and expr_str(strip(calls[0]["c"][3])) == "size - written"
-    upd = [x for x in F.walk() if x["k"] in ("CompoundAssignOperator", "BinaryOperator") and x.get("op", "") in ("+=", "=") and expr_str(strip(x["c"][0])) == "written"]
-    ok2 = len(upd) == 1 and upd[0]["op"] == "+=" and expr_str(strip(upd[0]["c"][1])) == "r"
-    ctx.ob(rule + "c", "setup_input: write cursor", "each write starts at data + written for size - written bytes and `written` advances by "
-           "exactly what the write accepted", ok and ok2, {"write": expr_str(calls[0]) if calls else None, "updates": [expr_str(u) for u in upd]})
+    ok = False
+    detail = {}
+    if len(calls) == 1:
+        ptr, ln = strip(calls[0]["c"][2]), strip(calls[0]["c"][3])
+        dname = [x for x in F.params if x["name"] in ("data",)] and "data"
+        pnames = {x["name"] for x in F.params}
+        if ptr["k"] == "BinaryOperator" and ptr["op"] == "+" and ln["k"] == "BinaryOperator" and ln["op"] == "-":
+            a0, w0 = expr_str(strip(ptr["c"][0])), expr_str(strip(ptr["c"][1]))
+            s0, w1 = expr_str(strip(ln["c"][0])), expr_str(strip(ln["c"][1]))
+            # the variable that receives the write's result
+            res_var = None
+            par = F.nodes.get(F.parent.get(calls[0]["id"]))
+            while par is not None and par["k"] in ("ImplicitCastExpr", "ParenExpr", "CStyleCastExpr"):
+                par = F.nodes.get(F.parent.get(par["id"]))
+            if par is not None and par["k"] == "BinaryOperator" and par["op"] == "=":
+                res_var = expr_str(strip(par["c"][0]))
+            elif par is not None and par["k"] == "VarDecl":
+                res_var = par["name"]
+            upd = [x for x in F.walk() if (x["k"] == "CompoundAssignOperator" or (x["k"] == "BinaryOperator" and x["op"] == "=") or
+                                           (x["k"] == "UnaryOperator" and x["op"] in ("++", "--"))) and expr_str(strip(x["c"][0])) == w0]
+            ok = (a0 in pnames and s0 in pnames and a0 != s0 and w0 == w1 and w0 not in pnames and len(upd) == 1
+                  and upd[0]["k"] == "CompoundAssignOperator" and upd[0]["op"] == "+=" and expr_str(strip(upd[0]["c"][1])) == res_var)
+            detail = {"write": expr_str(calls[0]), "cursor": w0, "updates": [expr_str(u) for u in upd], "result_var": res_var}
+    ctx.ob(rule + "c", "setup_input: write cursor", "each write starts at data + W for size - W bytes, for one cursor variable W that "
+           "advances only by what the write accepted", ok, detail)
     # nonblocking mode set (successfully) before any write
     for e in res.events:
         if e[0] == "write":
